@@ -230,3 +230,34 @@ package common
 //@   props C20
 //@   functional
 //@ end
+
+// ---- C18: which workspace files are candidates for a require/dofile argument ----
+// A candidate must end with "/" + the module path: the leading "/" anchors the match at a directory
+// boundary ("ui/panel" must not match ".../gui/panel.lua"). The file index supplies the paths whose
+// base name (with suffix) or stem (without) equals the last path component.
+//@ func GetBestMatchReferFile
+//@   props C18
+//@   requires fileIndexInfo != nil
+//@   at call append#0 before assert[candidate-ends-at-a-directory-boundary]
+//@        (suffixFlag ==> hasSuffix(strFile, concat("/", referFile))) && (!suffixFlag ==> hasSuffix(pathToPreStr, concat("/", referFile)))
+//@ end
+
+// ---- C08 / C18: the file-name index follows file creation and deletion ----
+// Paths are indexed under their base name (last "/" component) and, when it has a ".", under the stem before the first ".".
+//@ func (*FileIndexInfo).InsertOneFile
+//@   props C08 C18
+//@   sweep C01
+//@   requires f.fileNameMap != nil && f.freFileNameMap != nil
+//@   ensures[inserted-under-base-name] has(f.fileNameMap[splitLast(strFile, "/")], strFile)
+//@   ensures[inserted-under-stem] strIndex(splitLast(strFile, "/"), ".") >= 0 ==>
+//@        has(f.freFileNameMap[splitLast(strFile, "/")[0:strIndex(splitLast(strFile, "/"), ".")]], strFile)
+//@ end
+
+//@ func (*FileIndexInfo).RemoveOneFile
+//@   props C08 C18
+//@   sweep C01
+//@   requires f.fileNameMap != nil && f.freFileNameMap != nil
+//@   ensures[removed-from-base-name] !has(f.fileNameMap[splitLast(strFile, "/")], strFile)
+//@   ensures[removed-from-stem] strIndex(splitLast(strFile, "/"), ".") >= 0 ==>
+//@        !has(f.freFileNameMap[splitLast(strFile, "/")[0:strIndex(splitLast(strFile, "/"), ".")]], strFile)
+//@ end
